@@ -2,6 +2,20 @@ package main
 
 func init() {
 	property(&Property{
+		ID:    "C12",
+		Rules: []string{"COW-1", "COW-2", "COW-3", "COW-4", "COW-5", "COW-6", "COW-7", "OPTS-RO", "NO-UNSAFE"},
+		Decides: "Decides the copy-on-write discipline.",
+		NotDecided: "liveness.",
+		Assumptions: commonAssumptions,
+	})
+	property(&Property{
+		ID:    "C11",
+		Rules: []string{"WRITER-PUBLISHES"},
+		Decides: "Decides publishing.",
+		NotDecided: "histories.",
+		Assumptions: commonAssumptions,
+	})
+	property(&Property{
 		ID:    "C05",
 		Rules: []string{"STATUS-TABLE", "TABLE-GUARD", "TWIRP-TABLE"},
 		Decides: "Decides the table-shaped and pairing-shaped parts of status fidelity.",
